@@ -782,10 +782,15 @@ class ConditionBinaryOp(ConditionLike):
     def __new__(cls, *conditions):
         """If one of the conditions is a NullCondition, then abort object construction,
         and just return the non-null condition."""
-        return null_condition_binary_check(*conditions) or super().__new__(cls)
+        if len(conditions) == 2:
+            non_null = null_condition_binary_check(*conditions)
+            if non_null is not None:
+                return non_null
+        # (`copy` and `pickle` re-create objects by calling `__new__` without arguments)
+        return super().__new__(cls)
 
     def __init__(self, *conditions):
-        if null_condition_binary_check(*conditions) is not None:
+        if len(conditions) == 2 and null_condition_binary_check(*conditions) is not None:
             # `__new__` returned the non-null operand instead of a new object; if that
             # operand is an instance of this class, Python calls `__init__` on it
             # again, which must not re-bind its children.
